@@ -294,15 +294,17 @@ class ParallelTempering:
         start_time = time()
         end_time = start_time + run_time
 
-        # estimate how long it takes to do one swap cycle
-        t1 = time()
-        self.take_steps(swap_interval)
-        self.swap()
-        t2 = time()
+        N = 1
+        if run_time > 0:  # with no time budget at all, no steps are taken
+            # estimate how long it takes to do one swap cycle
+            t1 = time()
+            self.take_steps(swap_interval)
+            self.swap()
+            t2 = time()
 
-        # number of cycles chosen to give a print-out roughly every 2 seconds
-        # (a cycle faster than the resolution of the clock is counted as 10 ms)
-        N = max(1, int(2.0 / max(t2 - t1, 1e-2)))
+            # number of cycles chosen to give a print-out roughly every 2 seconds
+            # (a cycle faster than the resolution of the clock is counted as 10 ms)
+            N = max(1, int(2.0 / max(t2 - t1, 1e-2)))
 
         # (elapsed time is compared with the budget: a budget below the spacing of
         # the clock's absolute readings would be rounded away in start_time + run_time)
